@@ -271,4 +271,64 @@ func (s *sim) scheduleLaggard(l *node) {
 	s.schedule(200*time.Millisecond, "laggard-wait", tick)
 }
 
+// scheduleIsolation: a running correct validator L is cut off from everybody at a tape-chosen moment (in the
+// middle of whatever round it is in, possibly holding a validated proposal or a lock), stays cut off until
+// the others are LagHeights ahead, and is then reconnected: it is too far behind for vote sync and catches
+// up through fast sync (from honest servers, and from the Byzantine one if there is one).
+func (s *sim) scheduleIsolation(l *node) {
+	at := time.Duration(s.tape.Range("iso.at", 150, 2500)) * time.Millisecond
+	s.schedule(at, "isolate", func() {
+		var pairs [][2]int
+		for _, n := range s.nodes {
+			if n != l {
+				a, b := l.idx, n.idx
+				if a > b {
+					a, b = b, a
+				}
+				pairs = append(pairs, [2]int{a, b})
+				s.part[[2]int{a, b}] = true
+			}
+		}
+		h0 := l.lastSeenH
+		s.rc.Fault("validator_isolated")
+		s.rc.Event("ISOLATE n%d at height %d until the others are %d heights ahead", l.idx, h0, s.cfg.LagHeights)
+		var tick func()
+		tick = func() {
+			var minH int64 = 1 << 40
+			for _, n := range s.nodes {
+				if n != l && !n.byz && n.lastSeenH < minH {
+					minH = n.lastSeenH
+				}
+			}
+			if minH < h0+s.cfg.LagHeights {
+				s.schedule(100*time.Millisecond, "isolation-wait", tick)
+				return
+			}
+			for _, p := range pairs {
+				delete(s.part, p)
+			}
+			// what was held for and from the isolated validator during the isolation is gone (connections
+			// were down), apart from a tape-chosen few stragglers
+			held := s.held
+			s.held = nil
+			kept := 0
+			for _, h := range held {
+				if s.tape.Permille("iso.straggler", 30) {
+					s.send(s.nodes[h.src], s.nodes[h.dst], h.m, true)
+					kept++
+				}
+			}
+			s.rc.Fault("validator_reconnected_far_behind")
+			s.rc.Event("RECONNECT n%d at height %d, others at %d (%d of %d held messages delivered late)", l.idx, l.lastSeenH, minH, kept, len(held))
+			for _, n := range s.nodes {
+				if n != l && n.inc != nil && n.inc.alive() && l.inc != nil && l.inc.alive() {
+					s.notifyJoin(n.inc, l.peerID)
+					s.notifyJoin(l.inc, n.peerID)
+				}
+			}
+		}
+		s.schedule(100*time.Millisecond, "isolation-wait", tick)
+	})
+}
+
 var _ = module.ProtoFastSync
